@@ -111,6 +111,10 @@ def gen_model_case(g):
     base["pieces"] = cuts(g, T)
     base["seed"] = g.randint(0, 10 ** 9)
     base["as_calls"] = g.chance(0.3)
+    # the model has been used before, and the sequence starts from zero (reset=True) or from given states: the option
+    # travels with the FIRST piece only (run, or a single call), the other pieces carry on
+    base["start"] = g.choice([None, None, "reset", "from_state"])
+    base["warm"] = g.randint(1, 3) if base["start"] else 0
     base.pop("ops")
     return base
 
@@ -144,18 +148,35 @@ def check_model(ctx, c):
 
     def as_rows(bb, out, n):
         return {u: np.asarray(out[nd.name], dtype=float).reshape(n, -1) for u, nd in enumerate(bb.nodes)}
+    start = c.get("start")
+    warm = {u: flow.seq_rows(g, c.get("warm", 0), c["descs"][u]["in_dim"]) for u in ents} if start else None
+    fs_nodes = sorted(g.sample(range(len(c["descs"])), g.randint(1, len(c["descs"])))) if start == "from_state" else []
+    fs_vals = {u: g.dyvec(c["descs"][u]["out_dim"], a=2, k=4) for u in fs_nodes}
+
+    def first_kw(bb):
+        if start == "reset":
+            return {"reset": True}
+        if start == "from_state":
+            return {"from_state": {bb.nodes[u].name: np.array(fs_vals[u], dtype=float).reshape(1, -1) for u in fs_nodes}}
+        return {}
     try:
-        whole = as_rows(a, a.model.run(X(a, data, 0, T), return_states="all"), T)
+        if start:
+            a.model.run(X(a, warm, 0, c["warm"]))
+            b.model.run(X(b, warm, 0, c["warm"]))
+        whole = as_rows(a, a.model.run(X(a, data, 0, T), return_states="all", **first_kw(a)), T)
         parts = {i: [] for i in whole}
         pos = 0
+        first = True
         for n in c["pieces"]:
             if c["as_calls"] or n == 1:
                 for t in range(pos, pos + n):
-                    o = as_rows(b, b.model.call(X(b, data, t, t + 1), return_states="all"), 1)
+                    o = as_rows(b, b.model.call(X(b, data, t, t + 1), return_states="all", **(first_kw(b) if first else {})), 1)
+                    first = False
                     for i in o:
                         parts[i].append(o[i])
             else:
-                o = as_rows(b, b.model.run(X(b, data, pos, pos + n), return_states="all"), n)
+                o = as_rows(b, b.model.run(X(b, data, pos, pos + n), return_states="all", **(first_kw(b) if first else {})), n)
+                first = False
                 for i in o:
                     parts[i].append(o[i])
             pos += n
@@ -167,6 +188,7 @@ def check_model(ctx, c):
         return
     ctx.count(c, nontrivial=len(c["pieces"]) >= 2 and len(c["fb"]) >= 1, obligation=ob)
     ctx.stat(f"model pieces={len(c['pieces'])} fb={len(c['fb'])} as_calls={c['as_calls']}")
+    ctx.stat(f"model start={start}")
     ctx.sample({"kinds": [d["kind"] for d in c["descs"]], "fb": c["fb"], "T": T, "pieces": c["pieces"]})
     for i in whole:
         nm = a.nodes[i].name
@@ -179,6 +201,8 @@ def check_model(ctx, c):
             ctx.violation(f"model: after the same data in pieces node {nm} behaves differently (probe run)", c,
                           expected=pa[i].tolist(), observed=pb[i].tolist(), obligation=ob)
             return
+    if start:
+        return          # (the warm-up / reset / from_state histories are C08's model comparison; here: run = pieces)
     init_states = {a.idx[on]: np.asarray(on.state(), dtype=float).reshape(-1).tolist() for (od, on, _) in a.outside}
     mo = ctx.model.one(a.scenario([{"op": "run", "seqs": [{"X": {str(a.idx[a.nodes[u]]): flow.qmat(data[u]) for u in data}}]}],
                                   init_states=init_states))
